@@ -1,0 +1,27 @@
+//go:build verif
+
+// Contracts for the govc verifier (/verif). Comment-only; compiled only with -tags verif.
+
+package heuristic
+
+// C15: the set of potential titles only grows, and a non-empty candidate title (in the normal
+// form used for comparison: cur(title) at the end of the function) is itself a potential title (so that a block whose text is the title is labelled and not emitted again).
+//@ func (*DocumentTitleMatch).processPotentialTitle(title)
+//@   requires f != nil && f.potentialTitles != nil && f.wordCounter != nil
+//@   ensures [C15] #title-itself-is-potential implies(cur(title) != "", inmap(f.potentialTitles, cur(title)))
+//@   ensures [C15] #titles-only-grow forall(k[string], implies(old(inmap(f.potentialTitles, k)), inmap(f.potentialTitles, k)))
+//@   loop 0 invariant inmap(f.potentialTitles, cur(title))
+//@   loop 0 invariant f.potentialTitles != nil && forall(k[string], implies(old(inmap(f.potentialTitles, k)), inmap(f.potentialTitles, k)))
+//@   loop 1 invariant inmap(f.potentialTitles, cur(title)) && f.potentialTitles != nil && forall(k[string], implies(old(inmap(f.potentialTitles, k)), inmap(f.potentialTitles, k)))
+//@   loop 2 invariant inmap(f.potentialTitles, cur(title)) && f.potentialTitles != nil && forall(k[string], implies(old(inmap(f.potentialTitles, k)), inmap(f.potentialTitles, k)))
+
+//@ func (*DocumentTitleMatch).addPotentialTitles(title, rx, minWords)
+//@   requires f != nil && f.potentialTitles != nil && f.wordCounter != nil && rx != nil
+//@   assigns maps
+//@   fresh_assigns elems(string)
+//@   ensures [C15] #titles-only-grow forall(k[string], implies(old(inmap(f.potentialTitles, k)), inmap(f.potentialTitles, k)))
+//@   loop 0 invariant f.potentialTitles != nil && forall(k[string], implies(old(inmap(f.potentialTitles, k)), inmap(f.potentialTitles, k)))
+
+//@ func (*DocumentTitleMatch).getLongestPart(title, rx)
+//@   requires f != nil && f.wordCounter != nil && rx != nil
+//@   fresh_assigns elems(string)
